@@ -159,7 +159,7 @@ def h_codec(eng, case):
     eng.reach('end')
 
 
-def _mk_state(front, eng, calls, outcomes, tag, cbp=False):
+def _mk_state(front, eng, calls, outcomes, tag, cbp=False, iname='/a/b'):
     """fresh application with one handler on /p and one pending Interest on /a/b"""
     import ndn.types as types
     app, face = appenv.make_app(front)
@@ -183,11 +183,13 @@ def _mk_state(front, eng, calls, outcomes, tag, cbp=False):
     async def consumer():
         try:
             if front == 'v2':
-                n, c, ctx = await app.express('/a/b', pass_v2, lifetime=4000, nonce=9, can_be_prefix=cbp)
+                n, c, ctx = await app.express(iname, pass_v2, lifetime=4000, nonce=9, can_be_prefix=cbp)
+                raw = ctx.get('raw_packet')
             else:
-                n, m, c = await app.express_interest('/a/b', validator=pass_v1, lifetime=4000, nonce=9,
+                n, m, c = await app.express_interest(iname, validator=pass_v1, lifetime=4000, nonce=9,
                                                      can_be_prefix=cbp)
-            outcomes[tag] = ('data', None if c is None else bytes(c))
+                raw = None
+            outcomes[tag] = ('data', None if c is None else bytes(c), None if raw is None else bytes(raw))
         except types.InterestNack as e:
             outcomes[tag] = ('nack', e.reason)
         except Exception as e:
@@ -214,8 +216,14 @@ def h_equiv(eng, case):
     hdr = sym_headers(eng, case['headers'])
     wrapped = canonical_lp(eng, hdr, x) if case.get('canonical', True) else build_lp(eng, hdr, x)
     calls, outcomes = [], {}
-    appA, faceA, consA = _mk_state(front, eng, calls, outcomes, 'bare')
-    appB, faceB, consB = _mk_state(front, eng, calls, outcomes, 'lp')
+    iname = '/a/b'
+    if case.get('digest'):
+        # the pending Interest names the Data by its implicit digest: the hash is that of the network packet, with
+        # or without an envelope around it
+        import hashlib
+        iname = enc.Name.from_str('/a/b') + [enc.Component.from_bytes(hashlib.sha256(kinds['data'][1]).digest(), 1)]
+    appA, faceA, consA = _mk_state(front, eng, calls, outcomes, 'bare', iname=iname)
+    appB, faceB, consB = _mk_state(front, eng, calls, outcomes, 'lp', iname=iname)
 
     async def main(loop):
         ta = asyncio.ensure_future(consA())
@@ -421,6 +429,8 @@ def cases(tier, seed):
         for kind in ('interest', 'interest_other', 'data', 'data_other', 'garbage'):
             for hs in (H1, H2 + H3[:1]) if quick else (H1, H2, H3):
                 cs.append(('equiv', {'front': front, 'kind': kind, 'headers': hs}, {'weight': 5}))
+                if kind == 'data':
+                    cs.append(('equiv', {'front': front, 'kind': kind, 'headers': hs, 'digest': True}, {'weight': 5}))
         for target in ('pending', 'other'):
             for hs in ([], H1):
                 for tok in (0, 4) if front == 'v2' or hs == [] else (0,):
